@@ -46,6 +46,11 @@ Ops (responses: same encodings; `panic` where Rust panics, `fuel` never happens,
                                                               granularity g on these (normalised) items: `safeFor g items`
   imp.wf <item>                        -> 0 | 1                ORACLE: `wfPath true` (hypothesis of `normalize_leaves`) and not `bareSelf`
   imp.cmp <style> <tree> <tree>        -> lt | eq | gt         the comparison used for sorting
+  imp.samevis <ovis> <ovis>            -> 0 | 1                `UseTree::same_visibility` (with `is_same_visibility`)
+  imp.viskey <ovis>                    -> n | k hex            the key `Item.vis` uses for this visibility
+
+  ovis    := `n` (no visibility) | `P` (Public) | `I` (Inherited) | `R` (`0`|`1`) `:` hex (`,` hex)*
+             (Restricted: shorthand flag, segment names; `-` = the empty name of `{{root}}`)
 
   leaves  := `_` | leaf (`|` leaf)*      leaf := viskey `;` attrs `;` pseg (`:` pseg)* `;` alias
   viskey  := hex (`-` for inherited/none)   pseg := `N` hex `~` alias | `S~`al | `U~`al | `C~`al | `*`
@@ -238,8 +243,28 @@ def encExcept {α} (f : α → String) : Except Err α → String
 
 def orErr (o : Option String) : Option String := some (o.getD "err")
 
+def decOVis (s : String) : Option (Option Vis) :=
+  match s.toList with
+  | ['n'] => some none
+  | ['P'] => some (some .vpub)
+  | ['I'] => some (some .vinh)
+  | 'R' :: f :: ':' :: rest =>
+    match (String.ofList rest).splitOn "," |>.mapM decChars with
+    | some names =>
+      if f == '1' then some (some (.vres names true))
+      else if f == '0' then some (some (.vres names false)) else none
+    | none => none
+  | _ => none
+
 def handle (op : String) (args : List String) : Option String :=
   match op, args with
+  | "imp.samevis", [a, b] => orErr do
+    let a ← decOVis a
+    let b ← decOVis b
+    pure (if sameVisibility a b then "1" else "0")
+  | "imp.viskey", [a] => orErr do
+    let a ← decOVis a
+    pure (match a with | none => "n" | some v => "k" ++ encChars (visKey v))
   | "imp.normalize", [st, it] => orErr do
     let st ← decStyle st
     let it ← decItem it
